@@ -96,7 +96,18 @@ class ExportManager:
             dir_name = os.path.dirname(total_path)
             if not os.path.exists(dir_name):
                 os.makedirs(dir_name)
-            export_wav(sample, total_path)
+            try:
+                export_wav(sample, total_path)
+            except Exception as e:
+                # A sample that cannot be read or encoded must not abort 
+                # the export of the remaining samples.
+                if os.path.exists(total_path):
+                    os.remove(total_path)
+                print(
+                    f"Failed to export {inner_path}.wav "
+                    f"({type(e).__name__}: {e})"
+                )
+                continue
             print(f"Exported {inner_path}.wav")
 
         self.samples.clear()
